@@ -104,7 +104,9 @@ type PubState struct {
 	Kicked   bool
 	Idled    bool
 	IdleStep int
-	IdleAtMs int64
+	// IdleClosed: lal had disconnected the silent publisher before the harness ended the scenario
+	IdleClosed bool
+	IdleAtMs   int64
 }
 
 type ConsState struct {
@@ -245,6 +247,11 @@ func ExecRelay(k *sim.Kernel, pl RelayPlan) *RelayRun {
 }
 
 func (rr *RelayRun) epilogue(k *sim.Kernel) {
+	for _, p := range rr.Pubs {
+		if p.Idled && p.Actor != nil {
+			p.IdleClosed = p.Actor.Closed
+		}
+	}
 	if rr.Plan.Dispose {
 		t := k.Go("dispose", func() { rr.W.Srv.Dispose() })
 		k.Settle()
